@@ -1,3 +1,4 @@
+-- FAMILY: C23
 /-
   Driver.C23.handler — subquery statements of harness/src/fam_c23.rs (sqlgen case format, mode spec).
     case["c23"] : {kind, neg, corr, place, rules, unq, narrow, path ("join" = the physical plan holds a join: the subquery was
@@ -219,7 +220,13 @@ def subValues (dev : Dev) (m : Meta) (c : Case) (si : SubInfo) (se : Expr) (R : 
   let parts ← bs.mapM fun b => do
     let vs ← b.mapM fun l => subValue dev m c si l se
     let isCorrScalar := si.correlated && (match se with | .scalarSub _ => true | _ => false)
-    pure (if isCorrScalar then typedFromFirst dev vs else vs)
+    -- Int32 / Date32 results have no arm in `results_array_from_scalars`: NullArray
+    let narrowTy : Bool := match si.agg, si.out with
+      | none, .col j => let t := m.tys1.getD j "i64"; t == "i32" || t == "date"
+      | _, _ => false
+    pure (if isCorrScalar then
+            (if dev.corrScalarFirstRowTyped && narrowTy then vs.map (fun _ => Val.null) else typedFromFirst dev vs)
+          else vs)
   pure parts.flatten
 
 /-! ### the decorrelated paths -/
